@@ -49,17 +49,18 @@ where
             };
             let (a0, b0) = (av.clone(), bv.clone());
             let Some(d) = guarded(|| av.diff(&bv)) else { return tag("panic", vec![]) };
-            let pure_diff = av == a0 && bv == b0;
+            // renderings, not ==: a NaN field is != itself without having been modified
+            let pure_diff = av.to_sx() == a0.to_sx() && bv.to_sx() == b0.to_sx();
             let Some(dr) = guarded(|| av.diff_ref(&bv).into_iter().map(Into::into).collect::<Vec<T::Diff>>()) else {
                 return tag("panic", vec![]);
             };
-            let pure_diff_ref = av == a0 && bv == b0;
+            let pure_diff_ref = av.to_sx() == a0.to_sx() && bv.to_sx() == b0.to_sx();
             let d1 = d.clone();
             let ac = av.clone();
             let apply = guarded(move || ac.apply(d1));
             let d2 = d.clone();
             let applyref = guarded(|| av.apply_ref(d2));
-            let pure_apply_ref = av == a0;
+            let pure_apply_ref = av.to_sx() == a0.to_sx();
             let d3 = d.clone();
             let mut am = av.clone();
             let applymut = guarded(move || {
@@ -83,6 +84,23 @@ where
             let dr2 = dr.clone();
             let fc2 = fv.clone();
             let followref = guarded(move || fc2.apply(dr2));
+            // the four entry points on a base the diff was NOT computed from
+            let d6 = d.clone();
+            let fapplyref = guarded(|| fv.apply_ref(d6));
+            let d7 = d.clone();
+            let mut fm = fv.clone();
+            let fapplymut = guarded(move || {
+                fm.apply_mut(d7);
+                fm
+            });
+            let d8 = d.clone();
+            let mut fs = fv.clone();
+            let fsingle = guarded(move || {
+                for e in d8 {
+                    fs.apply_single(e);
+                }
+                fs
+            });
             tag(
                 "ok",
                 vec![
@@ -95,6 +113,9 @@ where
                     tag("applyrefd", vec![res(applyrefd)]),
                     tag("follow", vec![res(follow)]),
                     tag("followref", vec![res(followref)]),
+                    tag("fapplyref", vec![res(fapplyref)]),
+                    tag("fapplymut", vec![res(fapplymut)]),
+                    tag("fsingle", vec![res(fsingle)]),
                     tag("pure", vec![a(if pure_diff && pure_diff_ref && pure_apply_ref { "true" } else { "false" })]),
                 ],
             )
